@@ -112,7 +112,9 @@ class Operator:
             )
             return
 
-        for pddl_object in self.problem_objects.values():
+        # PDDL quantifiers range over the problem's objects and the domain's constants.
+        quantification_objects = {**self.problem_objects, **self.domain.constants}
+        for pddl_object in quantification_objects.values():
             self.logger.debug(
                 f"Trying to apply the action's universal effects on the object: {pddl_object.name}"
             )
